@@ -16,6 +16,13 @@
  * Paging: every page is produced by exactly one write_batch call with page_size = 1 (the writer
  * flushes a page after a write_batch when values+levels+64 >= page_size), and is then confirmed
  * by walking the chunk's page headers with carquet's own thrift parser (`pgw`).
+ * A 0 in `pg` is a data page WITHOUT values (F63; legal Parquet).  The real writer never emits one
+ * (flush_current_page returns when the page writer holds nothing), so such files are made from the
+ * written file by `splice_empty`: every chunk is copied page by page, an empty DATA_PAGE is put
+ * wherever `pg` has a 0 (header by carquet's own parquet_write_page_header with a CRC; body: nothing
+ * for a REQUIRED column, the length prefix 0 of an empty definition-level block for an OPTIONAL one,
+ * through carquet's own Snappy compressor when the chunk is compressed), and the footer is
+ * re-serialised by parquet_write_file_metadata from the parsed metadata with offsets and sizes adjusted.
  * Modes: 0 carquet_reader_open (fread), 1 carquet_reader_open with use_mmap, 2 open_buffer.
  * Byte arrays are read byte by byte by this (ASan-instrumented) file right after the call that
  * returned them and before the next call on that reader. */
@@ -23,7 +30,12 @@
 #include <carquet/carquet.h>
 #include "reader/reader_internal.h"
 #include "thrift/parquet_types.h"
+#include "core/buffer.h"
 #include <unistd.h>
+
+extern carquet_status_t carquet_snappy_compress(const uint8_t* src, size_t src_size, uint8_t* dst, size_t dst_capacity,
+                                                size_t* dst_size);
+extern uint32_t carquet_crc32(const uint8_t* data, size_t length);
 
 #define T_BOOL 0
 #define T_I32 1
@@ -53,7 +65,7 @@ typedef struct {              /* a written file, loaded */
     uint8_t* buf; size_t size;
 } pfile_t;
 
-static long st_cur, st_bat, st_ops[5], st_cross, st_err, st_zc, st_files, st_bigskip;
+static long st_cur, st_bat, st_ops[5], st_cross, st_err, st_zc, st_files, st_bigskip, st_empty, st_emptyfiles;
 
 /* ---------- small helpers ---------- */
 static size_t vsize(int t) {
@@ -165,6 +177,112 @@ static void gen_chunk(hctx* h, chunk_t* c, int type, int opt, int npages, const 
     }
 }
 
+/* ---------- data pages without values (F63) ---------- */
+static void put(uint8_t** out, size_t* n, size_t* cap, const void* src, size_t len) {
+    if (*n + len > *cap) {
+        size_t nc = (*n + len) * 2 + 64;
+        uint8_t* nb = h_alloc(nc);
+        if (*n) memcpy(nb, *out, *n);
+        free(*out); *out = nb; *cap = nc;
+    }
+    if (len) memcpy(*out + *n, src, len);
+    *n += len;
+}
+
+/* one data page with num_values = 0 for a column with `opt` (max_def 1) / without definition levels */
+static int empty_page(int opt, int codec, uint8_t** out, size_t* n, size_t* cap, int32_t* usize, int32_t* csize) {
+    uint8_t body[4] = { 0, 0, 0, 0 }; size_t bl = opt ? 4 : 0;
+    uint8_t comp[128]; size_t cl = bl;
+    if (codec && bl == 0) { comp[0] = 0; cl = 1; }     /* Snappy stream of no bytes: the length varint 0 (carquet's compressor refuses an empty input) */
+    else if (codec) { if (carquet_snappy_compress(body, bl, comp, sizeof comp, &cl) != CARQUET_OK) return 1; }
+    else if (bl) memcpy(comp, body, bl);
+    parquet_page_header_t ph; memset(&ph, 0, sizeof ph);
+    ph.type = CARQUET_PAGE_DATA;
+    ph.uncompressed_page_size = (int32_t)bl; ph.compressed_page_size = (int32_t)cl;
+    ph.has_crc = true; ph.crc = (int32_t)carquet_crc32(comp, cl);
+    ph.data_page_header.num_values = 0;
+    ph.data_page_header.encoding = CARQUET_ENCODING_PLAIN;
+    ph.data_page_header.definition_level_encoding = CARQUET_ENCODING_RLE;
+    ph.data_page_header.repetition_level_encoding = CARQUET_ENCODING_RLE;
+    carquet_buffer_t hb; carquet_buffer_init(&hb);
+    carquet_error_t err = CARQUET_ERROR_INIT;
+    if (parquet_write_page_header(&ph, &hb, &err) != CARQUET_OK) { carquet_buffer_destroy(&hb); return 2; }
+    put(out, n, cap, hb.data, hb.size);
+    put(out, n, cap, comp, cl);
+    *usize = (int32_t)(hb.size + bl); *csize = (int32_t)(hb.size + cl);
+    carquet_buffer_destroy(&hb);
+    st_empty++;
+    return 0;
+}
+
+/* rebuild the written file `pf` with an empty data page wherever the spec's page list has a 0 */
+static int splice_empty(const fspec_t* s, pfile_t* pf) {
+    carquet_error_t err = CARQUET_ERROR_INIT;
+    carquet_reader_options_t ro; carquet_reader_options_init(&ro);
+    carquet_reader_t* rd = carquet_reader_open_buffer(pf->buf, pf->size, &ro, &err);
+    if (!rd) return 20;
+    parquet_file_metadata_t* md = &rd->metadata;
+    if (md->num_row_groups != s->nrg) { carquet_reader_close(rd); return 21; }
+    uint8_t* out = NULL; size_t n = 0, cap = 0;
+    put(&out, &n, &cap, "PAR1", 4);
+    int rc = 0;
+    for (int g = 0; g < s->nrg && !rc; g++) {
+        parquet_row_group_t* rg = &md->row_groups[g];
+        if (rg->num_columns != s->ncol) { rc = 22; break; }
+        int64_t rgadd = 0;
+        if (rg->has_file_offset) rg->file_offset = (int64_t)n;
+        for (int c = 0; c < s->ncol && !rc; c++) {
+            const chunk_t* ch = &s->ch[g * s->ncol + c];
+            parquet_column_chunk_t* cc = &rg->columns[c];
+            parquet_column_metadata_t* cm = &cc->metadata;
+            if (cm->has_dictionary_page_offset) { rc = 23; break; }
+            int64_t off = cm->data_page_offset;
+            int64_t newstart = (int64_t)n;
+            for (int p = 0; p < ch->npages && !rc; p++) {
+                if (ch->pg[p] == 0) {
+                    int32_t us = 0, cs = 0;
+                    if (empty_page(ch->opt, s->codec, &out, &n, &cap, &us, &cs)) { rc = 24; break; }
+                    cm->total_uncompressed_size += us; cm->total_compressed_size += cs; rgadd += cs;
+                    continue;
+                }
+                if (off < 0 || (size_t)off >= pf->size) { rc = 25; break; }
+                parquet_page_header_t ph; size_t hs = 0;
+                size_t avail = pf->size - (size_t)off; if (avail > 256) avail = 256;
+                if (parquet_parse_page_header(pf->buf + off, avail, &ph, &hs, &err) != CARQUET_OK) { rc = 26; break; }
+                if (ph.type != CARQUET_PAGE_DATA || ph.data_page_header.num_values != ch->pg[p]) { rc = 27; break; }
+                size_t len = hs + (size_t)ph.compressed_page_size;
+                if ((size_t)off + len > pf->size) { rc = 28; break; }
+                put(&out, &n, &cap, pf->buf + off, len);
+                off += (int64_t)len;
+            }
+            cm->data_page_offset = newstart;
+            cc->file_offset = newstart;
+        }
+        rg->total_byte_size += rgadd;
+        if (rg->has_total_compressed_size) rg->total_compressed_size += rgadd;
+    }
+    if (!rc) {
+        carquet_buffer_t fb; carquet_buffer_init(&fb);
+        if (parquet_write_file_metadata(md, &fb, &err) != CARQUET_OK) rc = 29;
+        else {
+            uint8_t le[4] = { (uint8_t)fb.size, (uint8_t)(fb.size >> 8), (uint8_t)(fb.size >> 16), (uint8_t)(fb.size >> 24) };
+            put(&out, &n, &cap, fb.data, fb.size);
+            put(&out, &n, &cap, le, 4);
+            put(&out, &n, &cap, "PAR1", 4);
+        }
+        carquet_buffer_destroy(&fb);
+    }
+    carquet_reader_close(rd);
+    if (rc) { free(out); return rc; }
+    FILE* f = fopen(pf->path, "wb");
+    if (!f) { free(out); return 30; }
+    fwrite(out, 1, n, f); fclose(f);
+    free(pf->buf);
+    pf->buf = h_alloc(n); memcpy(pf->buf, out, n); pf->size = n;     /* exact-size copy */
+    free(out);
+    return 0;
+}
+
 /* ---------- writing with the real writer ---------- */
 static int n_tmp;
 static int write_spec(const fspec_t* s, pfile_t* pf) {
@@ -189,6 +307,7 @@ static int write_spec(const fspec_t* s, pfile_t* pf) {
             int row = 0, val = 0;
             for (int p = 0; p < ch->npages && !rc; p++) {
                 int rows = ch->pg[p], nn = 0;
+                if (rows == 0) continue;                 /* a page without values: spliced in afterwards */
                 for (int i = 0; i < rows; i++) if (ch->defs[row + i] == (ch->opt ? 1 : 0)) nn++;
                 size_t vs = vsize(ch->type);
                 uint8_t* vb = h_alloc(vs * (size_t)nn);
@@ -221,6 +340,9 @@ static int write_spec(const fspec_t* s, pfile_t* pf) {
     if (fread(pf->buf, 1, (size_t)n, f) != (size_t)n) { fclose(f); return 8; }
     fclose(f);
     st_files++;
+    int anyempty = 0;
+    for (int i = 0; i < s->ncol * s->nrg; i++) for (int p = 0; p < s->ch[i].npages; p++) if (s->ch[i].pg[p] == 0) anyempty = 1;
+    if (anyempty) { int rc2 = splice_empty(s, pf); if (rc2) { fprintf(stderr, "splice_empty rc=%d\n", rc2); return rc2; } st_emptyfiles++; }
     return 0;
 }
 static void drop_file(pfile_t* pf) { if (pf->path[0]) unlink(pf->path); free(pf->buf); pf->buf = NULL; pf->path[0] = 0; }
@@ -234,10 +356,12 @@ static carquet_reader_t* open_mode(int mode, const pfile_t* pf) {
 }
 
 /* rows per page of chunk (g,c) by walking the page headers; payload offsets for corruption */
-static int walk_pages(const pfile_t* pf, carquet_reader_t* rd, int g, int c, int* rows, size_t* payload, int maxp) {
+/* `want` > 0: the number of pages the chunk was written with (pages without values at the end of a
+ * chunk cannot be told from the value count) */
+static int walk_pages(const pfile_t* pf, carquet_reader_t* rd, int g, int c, int* rows, size_t* payload, int maxp, int want) {
     const parquet_column_metadata_t* cm = &rd->metadata.row_groups[g].columns[c].metadata;
     int64_t off = cm->data_page_offset, seen = 0; int n = 0;
-    while (seen < cm->num_values && n < maxp) {
+    while ((want > 0 ? n < want : seen < cm->num_values) && n < maxp) {
         if (off < 0 || (size_t)off >= pf->size) return -1;
         parquet_page_header_t ph; size_t hs = 0; carquet_error_t err = CARQUET_ERROR_INIT;
         size_t avail = pf->size - (size_t)off; if (avail > 256) avail = 256;
@@ -257,7 +381,7 @@ static int corrupt(pfile_t* pf, const fspec_t* s, int bad) {
     if (!rd) return 1;
     for (int g = 0; g < s->nrg; g++) for (int c = 0; c < s->ncol; c++) {
         int rows[64]; size_t pay[64];
-        int n = walk_pages(pf, rd, g, c, rows, pay, 64);
+        int n = walk_pages(pf, rd, g, c, rows, pay, 64, s->ch[g * s->ncol + c].npages);
         if (bad >= n) { carquet_reader_close(rd); return 2; }
         pf->buf[pay[bad]] ^= 0x5a;
     }
@@ -325,7 +449,7 @@ static void exec_cur(hctx* h, const pfile_t* pf, const fspec_t* s, int mode, int
     if (!rd) { fprintf(f, " | out=OPENFAIL\n"); return; }
     if (mode == 1 && !carquet_reader_is_mmap(rd)) { fprintf(f, " | out=NOMMAP\n"); carquet_reader_close(rd); return; }
     int rows[64];
-    int np = walk_pages(pf, rd, rg, col, rows, NULL, 64);
+    int np = walk_pages(pf, rd, rg, col, rows, NULL, 64, ch->npages);
     fprintf(f, " | pgw="); print_intlist(f, rows, np < 0 ? 0 : np);
     carquet_column_reader_t* cr = carquet_reader_get_column(rd, rg, col, &err);
     if (!cr) { fprintf(f, " out=COLFAIL\n"); carquet_reader_close(rd); return; }
@@ -403,7 +527,7 @@ static void exec_bat(hctx* h, const pfile_t* pf, const fspec_t* s, int mode, int
     if (!rd) { fprintf(f, " | st=OPENFAIL\n"); return; }
     fprintf(f, " | pgw=");
     for (int g = 0; g < s->nrg; g++) for (int c = 0; c < s->ncol; c++) {
-        int rows[64]; int np = walk_pages(pf, rd, g, c, rows, NULL, 64);
+        int rows[64]; int np = walk_pages(pf, rd, g, c, rows, NULL, 64, s->ch[g * s->ncol + c].npages);
         if (g || c) fputc('/', f);
         print_intlist(f, rows, np < 0 ? 0 : np);
     }
@@ -499,6 +623,17 @@ static void exhaustive_on(hctx* h, int type, int opt, int npages, const int* pg,
     drop_file(&pf); free_spec(&s); free_chunk(&ch);
 }
 
+/* F63: put pages without values into a page list (before any page and at the end, one or two in a row) */
+static int inject_zeros(hctx* h, int* pg, int np, int maxnp) {
+    int tmp[32], n = 0;
+    for (int p = 0; p <= np && n < maxnp; p++) {
+        if (h_chance(h, 1, 3)) { int k = 1 + (int)h_below(h, 2); while (k-- > 0 && n < maxnp - (np - p)) tmp[n++] = 0; }
+        if (p < np) tmp[n++] = pg[p];
+    }
+    for (int i = 0; i < n; i++) pg[i] = tmp[i];
+    return n;
+}
+
 static int rand_ops(hctx* h, cop_t* ops, int maxn, int nrows, int maxpage) {
     int n = 1 + (int)h_below(h, (uint64_t)maxn);
     for (int i = 0; i < n; i++) {
@@ -563,10 +698,47 @@ static void gen_cursor(hctx* h) {
         }
         drop_file(&pf); free_spec(&s); free_chunk(&ch);
     }
+    /* 0b. the negative witnesses of F63 (fixed defect): data pages without values in the middle, at the head,
+     * at the end of a chunk, two in a row; REQUIRED (zero-copy view in the mapped modes), OPTIONAL, BYTE_ARRAY,
+     * compressed; read whole, row by row, page by page, skipped over */
+    {
+        int pgs[6][5] = { {3, 0, 3, -1, -1}, {0, 6, -1, -1, -1}, {6, 0, -1, -1, -1}, {2, 0, 0, 2, -1}, {0, 0, 4, 0, -1},
+                          {0, 2, 0, 3, 0} };
+        for (int i = 0; i < 6; i++) {
+            int np = 0; while (np < 5 && pgs[i][np] >= 0) np++;
+            for (int v = 0; v < (thorough ? 4 : 2); v++) {
+                int type = v == 0 ? T_I32 : (v == 1 ? T_I64 : (v == 2 ? T_BA : T_BOOL));
+                int opt = v == 1 || (v == 3 && (i & 1));
+                chunk_t ch; gen_chunk(h, &ch, type, opt, np, pgs[i], 3);
+                fspec_t s; cur_spec(&s, &ch, 1 + (i & 1), 1 + (i % 3 == 2), v == 2 && (i & 1)); pfile_t pf;
+                if (write_spec(&s, &pf) == 0) {
+                    for (int mode = 0; mode < 3; mode++) {
+                        cop_t a[3] = { {'r', ch.nrows}, {'h', 0}, {'m', 0} };
+                        exec_cur(h, &pf, &s, mode, 0, 0, -1, a, 3);
+                        cop_t b[9] = { {'r', 1}, {'r', 1}, {'r', 1}, {'r', 1}, {'h', 0}, {'m', 0}, {'r', 1}, {'r', 1}, {'r', 1} };
+                        exec_cur(h, &pf, &s, mode, s.nrg - 1, s.ncol - 1, -1, b, 9);
+                        cop_t c[5] = { {'r', 3}, {'r', 3}, {'h', 0}, {'m', 0}, {'r', 3} };
+                        exec_cur(h, &pf, &s, mode, 0, 0, -1, c, 5);
+                        cop_t d[6] = { {'r', 0}, {'s', 2}, {'r', 2}, {'m', 0}, {'c', 0}, {'r', 9} };
+                        exec_cur(h, &pf, &s, mode, 0, 0, -1, d, 6);
+                    }
+                } else fprintf(h->out, "#stat write_failed 1\n");
+                drop_file(&pf); free_spec(&s); free_chunk(&ch);
+            }
+        }
+    }
     /* 1. small exhaustive scopes */
     if (!thorough) {
         int pg[2] = { 3, 2 };
         exhaustive_on(h, T_I32, 1, 2, pg, 3, 0, 4, 3);            /* all histories, length <= 3, k in 0..4 */
+        /* ... and with pages without values (F63): length <= 2 on four chunks, length <= 3 (k in 0..3) on one */
+        int pz[4][4] = { {0, 2, 1, -1}, {2, 0, 1, -1}, {2, 1, 0, -1}, {1, 0, 0, 2} };
+        for (int i = 0; i < 4; i++) {
+            int np = 0; while (np < 4 && pz[i][np] >= 0) np++;
+            exhaustive_on(h, TYPES[i % 4], i != 1, np, pz[i], 2 + (i % 3), i % 3, 4, 2);
+        }
+        int pz3[3] = { 2, 0, 2 };
+        exhaustive_on(h, T_I32, 0, 3, pz3, 0, 1, 3, 3);
         int pgs[6][3] = { {1, 1, 1}, {2, 3, 1}, {4, 1, 2}, {1, 4, 0}, {5, 0, 0}, {2, 2, 2} };
         for (int i = 0; i < 6; i++) {
             int np = pgs[i][2] ? 3 : (pgs[i][1] ? 2 : 1);
@@ -593,16 +765,33 @@ static void gen_cursor(hctx* h) {
             int np = l4[i][2] ? 3 : (l4[i][1] ? 2 : 1);
             exhaustive_on(h, TYPES[i % 5], i % 4 != 3, np, l4[i], 2 + i % 5, i % 3, 3, 4);
         }
+        /* F63: ALL histories of length <= 3 (k in 0..4) for every chunk of one or two pages with rows (1..3 rows
+         * each) and pages without values at the head / between / at the end (0, 1 or 2 in a row at each place,
+         * at most 3 in all) */
+        for (int a = 1; a <= 3; a++) for (int b = 0; b <= 3; b++)
+            for (int z0 = 0; z0 <= 2; z0++) for (int z1 = 0; z1 <= (b ? 2 : 0); z1++) for (int z2 = 0; z2 <= 2; z2++) {
+                if (z0 + z1 + z2 == 0 || z0 + z1 + z2 > 3) continue;
+                int pg[8], np = 0;
+                for (int k = 0; k < z0; k++) pg[np++] = 0;
+                pg[np++] = a;
+                for (int k = 0; k < z1; k++) pg[np++] = 0;
+                if (b) pg[np++] = b;
+                for (int k = 0; k < z2; k++) pg[np++] = 0;
+                exhaustive_on(h, TYPES[cfg % 5], cfg % 3 != 0, np, pg, 2 + cfg % 5, cfg % 3, 4, 3);
+                cfg++;
+            }
     }
     /* 2. random chunks x random histories, all types, three modes, optional CRC-damaged page */
     long nfiles = thorough ? 4000 : 150;
     for (long i = 0; i < nfiles; i++) {
-        int np = 1 + (int)h_below(h, 6), pg[6], maxpage = 1;
+        int np = 1 + (int)h_below(h, 6), pg[16], maxpage = 1;
         for (int p = 0; p < np; p++) { pg[p] = 1 + (int)h_below(h, h_chance(h, 1, 4) ? 40 : 9); if (pg[p] > maxpage) maxpage = pg[p]; }
         int type = TYPES[h_below(h, 5)], opt = !h_chance(h, 1, 4);
+        if (i % 4 == 3) np = inject_zeros(h, pg, np, 12);              /* F63: pages without values */
         chunk_t ch; gen_chunk(h, &ch, type, opt, np, pg, (int)h_below(h, 7));
         int ncol = 1 + (int)h_below(h, 3), nrg = 1 + (int)h_below(h, 3), codec = h_chance(h, 1, 4);
         int bad = h_chance(h, 1, 8) ? (int)h_below(h, (uint64_t)np) : -1;
+        if (bad >= 0 && pg[bad] == 0 && !opt) bad = -1;               /* no payload byte to damage */
         fspec_t s; cur_spec(&s, &ch, ncol, nrg, codec); pfile_t pf;
         int rc = write_spec(&s, &pf);
         if (rc == 0 && bad >= 0 && corrupt(&pf, &s, bad) != 0) rc = 99;
@@ -644,9 +833,10 @@ static void gen_cursor(hctx* h) {
             int rows = 1 + (int)h_below(h, h_chance(h, 1, 3) ? 60 : 14);
             if (rows > maxrows) maxrows = rows;
             for (int c = 0; c < s.ncol; c++) {
-                int pg[6], np = 0, left = rows;
+                int pg[16], np = 0, left = rows;
                 while (left > 0 && np < 5) { int r = 1 + (int)h_below(h, (uint64_t)left); if (h_chance(h, 1, 2) && r > 1) r = 1 + r / 2; pg[np++] = r; left -= r; }
                 if (left > 0) pg[np++] = left;
+                if (i % 4 == 3 && h_chance(h, 2, 3)) np = inject_zeros(h, pg, np, 12);   /* F63: pages without values */
                 gen_chunk(h, &s.ch[g * s.ncol + c], s.type[c], s.opt[c], np, pg, (int)h_below(h, 7));
             }
         }
@@ -657,7 +847,10 @@ static void gen_cursor(hctx* h) {
                 int bs;
                 int z = (int)h_below(h, 6);
                 if (z == 0) bs = 1; else if (z == 1) bs = maxrows + (int)h_below(h, 3);
-                else if (z == 2) bs = s.ch[0].pg[0];                   /* exactly the first page of column 0 */
+                else if (z == 2) {                                     /* exactly the first page (with rows) of column 0 */
+                    bs = 1;
+                    for (int q = 0; q < s.ch[0].npages; q++) if (s.ch[0].pg[q] > 0) { bs = s.ch[0].pg[q]; break; }
+                }
                 else bs = 1 + (int)h_below(h, (uint64_t)maxrows + 2);
                 int proj[8], np = 0, byname = 0; const char* unknown = NULL;
                 int pz = (int)h_below(h, 4);
@@ -674,6 +867,7 @@ static void gen_cursor(hctx* h) {
         drop_file(&pf); free_spec(&s);
     }
     fprintf(h->out, "#stat cur_histories %ld\n#stat bat_runs %ld\n#stat files_written %ld\n", st_cur, st_bat, st_files);
+    fprintf(h->out, "#stat files_with_empty_pages %ld\n#stat empty_pages_spliced %ld\n", st_emptyfiles, st_empty);
     fprintf(h->out, "#stat op_read %ld\n#stat op_skip %ld\n#stat op_has %ld\n#stat op_rem %ld\n#stat op_recreate %ld\n",
             st_ops[0], st_ops[1], st_ops[2], st_ops[3], st_ops[4]);
     fprintf(h->out, "#stat reads_multi_row %ld\n#stat short_reads_on_error %ld\n#stat zero_copy_columns %ld\n#stat skips_over_1024 %ld\n",
